@@ -461,7 +461,7 @@ func c33Alloc() *explore.Scenario {
 		Watchdog: 60 * time.Second, HangSig: "C33|hang",
 		Run: func(x *explore.X) (r explore.Result) {
 			g := clients[x.Choose("client", len(clients))]
-			kind := x.Choose("kind", 4)
+			kind := x.Choose("kind", 5)
 			f := c33Flights()[0]
 			var mutate func(n int, t uint8, d []byte) []byte
 			what := ""
@@ -476,6 +476,22 @@ func c33Alloc() *explore.Scenario {
 								return compressedCertMsg(e.alg, declared, e.enc(d[4:]))
 							}
 						}
+					}
+					return d
+				}
+			case 4:
+				// a 10-byte zstd frame whose header announces a window of hundreds of MiB, declared
+				// length 1: a decoder that sizes its history buffer from the frame header allocates it
+				// before producing a byte (only a client that advertises zstd gets this far)
+				what = "CompressedCertificate(zstd) of 10 bytes announcing a 512 MiB window"
+				g = gridClient{Name: "custom:tls13-minimal+zstd", ID: tls.HelloCustom, Spec: func() (*tls.ClientHelloSpec, error) {
+					sp := handshakeSpec("tls13-minimal")
+					sp.Extensions = append(sp.Extensions, &tls.UtlsCompressCertExtension{Algorithms: []tls.CertCompressionAlgo{tls.CertCompressionZstd}})
+					return sp, nil
+				}}
+				mutate = func(n int, t uint8, d []byte) []byte {
+					if t == 11 {
+						return compressedCertMsg(algZstd, 1, []byte{0x28, 0xB5, 0x2F, 0xFD, 0x00, 0x98, 0x09, 0x00, 0x00, 0x41})
 					}
 					return d
 				}
@@ -504,7 +520,10 @@ func c33Alloc() *explore.Scenario {
 			}
 			// both endpoints live in this process: a whole honest handshake allocates well under
 			// 2 MiB; the protocol's largest legitimate buffer is the 256 KiB certificate message
-			const limit = 2<<20 + 4*262144
+			limit := uint64(2<<20 + 4*262144)
+			if kind == 4 {
+				limit += 9 << 20 // a zstd decoder may legitimately keep the 8 MiB window RFC 8878 asks decoders to support
+			}
 			if alloc > limit {
 				r.Violate(fmt.Sprintf("C33|allocation|kind=%d", kind), "%s: %d bytes allocated during the handshake (limit %d)", what, alloc, limit)
 			}
